@@ -26,6 +26,8 @@ type World struct {
 	globals   map[*ssa.Global]int
 	sweep     bool
 	inlineStd map[string]bool
+	constPtr  map[*ssa.Global]int
+	nconstPtr int
 }
 
 const modPrefix = "github.com/go-text/typesetting/"
@@ -497,3 +499,30 @@ func (e *Engine) ridLe(a, b Term) Term {
 }
 
 func isNilRid(t Term) bool { return t.S == "0" || t.S == "(_ bv0 64)" }
+
+// constPointerGlobal: a package-level pointer variable initialised with `&T{...}` (its own composite literal) and never
+// written outside its initialiser denotes a constant, distinct, non-nil address. Both facts are checked on the current
+// tree (AST form of the initialiser, SSA scan for writers); the value is then a distinct region constant.
+func (e *Engine) constPointerGlobal(p PtrV) (Val, bool) {
+	if p.Local != nil || len(p.Path) > 0 || p.ArrBase || len(p.ArrIdx) > 0 {
+		return nil, false
+	}
+	pt, ok := p.Ty.Underlying().(*types.Pointer)
+	if !ok {
+		return nil, false
+	}
+	inner, ok := pt.Elem().Underlying().(*types.Pointer)
+	if !ok {
+		return nil, false
+	}
+	g := e.w.globalByRid(p.Rid)
+	if g == nil {
+		return nil, false
+	}
+	id, ok := e.w.constPtrID(g)
+	if !ok {
+		return nil, false
+	}
+	e.note("package-level table pointers (e.g. %s) are distinct constants: checked from their initialisers (&T{...}) and an SSA scan for writers", g.Name())
+	return PtrV{Ty: pt.Elem(), Rid: e.ridLit(int64(maxGlobals/2 + id)), Idx: e.ar.idxLit(0), Root: inner.Elem(), NonNil: true}, true
+}
